@@ -66,7 +66,7 @@ func EnumCase(path, in string, data interface{}, enum interface{}, caseSensitive
 				continue
 			}
 			expectedValue := reflect.ValueOf(data)
-			if expectedValue.IsValid() && expectedValue.Type().ConvertibleTo(actualType) {
+			if expectedValue.IsValid() && expectedValue.CanConvert(actualType) { // not ConvertibleTo: a slice converts to an array of its length only
 				// Attempt comparison after type conversion
 				if equalAfterNumericConversion(expectedValue, actualType, enumValue) {
 					return nil
